@@ -1453,6 +1453,25 @@ macro_rules! dispatch {
     };
 }
 
+/// key material loaded from its hex text through the library's own `Key::<N>::try_from(&str)`:
+/// Some(bytes the library made of it), None if the library refused the text or N is not a key size it has
+pub fn key_bytes_via_hex(n: usize, hex: &str) -> Option<Vec<u8>> {
+    fn go<const N: usize>(hex: &str) -> Option<Vec<u8>> {
+        match guard(|| Key::<N>::try_from(hex).ok().map(|k| k.as_ref().to_vec())) {
+            Ok(v) => v,
+            Err(_) => None,
+        }
+    }
+    match n {
+        24 => go::<24>(hex),
+        32 => go::<32>(hex),
+        48 => go::<48>(hex),
+        49 => go::<49>(hex),
+        64 => go::<64>(hex),
+        _ => None,
+    }
+}
+
 // ------------------------------------------------------------------------------------------------
 // the uniform API
 
